@@ -11,7 +11,7 @@ SCR=$(mktemp -d /tmp/replaytest.XXXX); cp known_findings.txt "$SCR/"
 run() { # id patch
   local ID="$1" PATCH="$2" BIN=muxsim
   case "$ID" in C01|C14|C19) BIN=syssim;; esac
-  git -C /repo apply "$PATCH" || { echo "patch $PATCH does not apply"; FAIL=2; return; }
+  git -C /repo apply "/verif/$PATCH" || { echo "patch $PATCH does not apply"; FAIL=2; return; }
   ( cd sim && cargo build --release --offline -q -p $BIN 2>&1 | grep -E "^error" -A5 )
   rm -rf "$SCR/replays"
   VERIF_DIR="$SCR" sim/target/release/$BIN check "$ID" --no-evidence >/dev/null 2>&1
